@@ -154,6 +154,9 @@ def run(chk):
         chk.violation(rid, cb.file, c, "Variant<Target,_> constructed", "a compiled assignment is constructed outside Assignment::new, bypassing verify_mutable",
                       detail=d, loc="%s:%d" % (cb.file, cb.line))
 
+    from common import run_witness
+    run_witness(chk, "R15w", "Context::target() is a shared reference: mutation through it is E0596")
+
     config_rules(chk)
 
     # ---- R15c
